@@ -257,6 +257,22 @@ CLAIMS["C02"] = dict(
     technique="return-value provenance on the CFG + non-interference (name-content) lint + must-pass-through on loop bodies with enumerated bypasses",
     ref="3/C02",
 )
+CLAIMS["C01"] = dict(
+    text="That every emitted file parses and imports for every accepted spec is a statement over generator runs and is not decided. "
+    "Decided are necessary conditions on the emit code that a single forgotten site would break: (1) import obligations - for every "
+    "emit of a code line mentioning a symbol of a frozen table (dataclass, field, Enum, unique, Protocol, runtime_checkable, "
+    "TYPE_CHECKING, overload, TypeAlias, Annotated, cast, HttpTransport, DataclassSerializer, structure_from_dict, ...) the "
+    "registration of its import lies on every CFG path through the emit (dominator/post-dominator, list-truthiness guard "
+    "correlation, or discharged at every call site of the emitting function); (2) every status for which endpoints raise an alias "
+    "class has an alias class; (3) the constant templates (CONFIG_TEMPLATE, core/auth __init__ line lists, wrapper-class blocks) "
+    "parse with holes as identifiers, every `from .X import N` in them names a shipped runtime module defining N, every __all__ "
+    "entry is imported, and exported alias names are regenerated together with the alias code; (4) shared code writers are left at "
+    "the indentation they were received with (callee summaries checked on the callee); (5) de-collision is complete before the "
+    "first model file is written, files are refused without names, and a file filter after naming is either unsatisfiable (a small "
+    "string-constraint check) or applied to the registry exports are rendered from; (6) no parameter can be declared twice.",
+    technique="must-pass-through import obligations with caller discharge + template parsing/cross-reference + writer indent typestate with callee summaries + emission-set consistency",
+    ref="3/C01",
+)
 
 NOT_APPLICABLE = {}
 
